@@ -166,6 +166,7 @@ typedef struct {
 } dump_t;
 void dump_keep_sequences(int on);
 void dump_prefix_lenient(int on);
+void prefix_complete_on_success(int on);   /* an iteration that returns 0 must deliver everything (altered closed files that no repair cut short) */
 void dump_free(dump_t *d);
 /* 'a' (reader view of an unclosed original) must be a prefix of 'b' (its copy), list by list; FSR samples are
  * compared by reading both files.  Differences are reported under 'prop' with keys "<kp>|..." */
